@@ -253,7 +253,8 @@ class Grant(Item):
         if _claims_restriction and context.session_manager.node_type[0] == "user":
             user_id, client_id, _ = context.session_manager.decrypt_branch_id(session_id)
             user_info = context.claims_interface.get_user_claims(user_id, _claims_restriction, client_id=client_id)
-            payload.update(user_info)
+            # attributes of the user never replace what the grant itself states (sub, client_id, scope, aud, ...)
+            payload.update({k: v for k, v in user_info.items() if k not in payload})
 
         # Should I add the acr value
         if self.add_acr_value(claims_release_point):
@@ -608,7 +609,7 @@ class ExchangeGrant(Grant):
 
         user_id, client_id, _ = endpoint_context.session_manager.decrypt_session_id(session_id)
         user_info = endpoint_context.claims_interface.get_user_claims(user_id, _claims_restriction, client_id)
-        payload.update(user_info)
+        payload.update({k: v for k, v in user_info.items() if k not in payload})
 
         # Should I add the acr value
         if self.add_acr_value(claims_release_point):
